@@ -16,7 +16,12 @@ sid = sys.argv[1]
 d = os.environ.get("SEED_BASE", "/verif/seeded") + "/" + sid
 meta = json.load(open(d + "/meta.json"))
 props = sys.argv[2:] or [meta["property"]]
-SV, SR = "/tmp/sr-verif", "/tmp/sr-repo"
+if not sys.argv[2:] and os.path.exists(d + "/also.txt"):
+    # sibling checks known to see this seed as well (or instead)
+    props += [x for x in open(d + "/also.txt").read().split() if x not in props]
+# SR_SLOT=<n>: an independent pair of scratch directories, so that several seeds can be run in parallel
+_slot = os.environ.get("SR_SLOT", "")
+SV, SR = "/tmp/sr-verif" + _slot, "/tmp/sr-repo" + _slot
 
 
 def sh(cmd, **kw):
@@ -25,6 +30,8 @@ def sh(cmd, **kw):
 
 if not os.path.isdir(SV):
     sh(["git", "clone", "-q", "/verif", SV])
+    if os.path.isdir("/verif/lean/.lake") and not os.path.isdir(SV + "/lean/.lake"):
+        sh(["cp", "-r", "/verif/lean/.lake", SV + "/lean/.lake"])      # start from /verif's build instead of an empty one
 else:
     sh(["git", "-C", SV, "checkout", "--", "."])
     sh(["git", "-C", SV, "pull", "-q", "--no-edit", "/verif", "HEAD"])
